@@ -54,6 +54,7 @@ def run(ck):
                      "publish-waits-for-silent-server", "server-error-on-write", "server-disconnect-on-write",
                      "late-answer", "error-after-write", "scenario-create", "scenario-update", "in-place-update",
                      "writer-defaults-differ-from-file", "stale-duplicate-share-present",
+                     "duplicate-homes-with-k-surviving-writers",
                      "sdmf", "mdmf")
 
 
@@ -163,6 +164,7 @@ class Case(object):
     def __init__(self, ck, g, case, rng):
         self.ck, self.g, self.case, self.rng = ck, g, case, rng
         self.lie = {}            # server name -> dict(nth, seen): answer with an error after the write happened
+        self.lie_pairs = set()   # (server name, shnum): the write to that share is applied, its answer is an error
         self.cur = {}
         self.faultdesc = {}
         self.intruder_content = None
@@ -174,6 +176,12 @@ class Case(object):
         self.cur["rec"] = rec
 
     def _mutate(self, vs, meth, args, result, obj):
+        if meth == W and self.lie_pairs and any((vs.name, sh) in self.lie_pairs for sh in args[2]):
+            from twisted.python.failure import Failure
+            from foolscap.api import RemoteException
+            from vf.grid import InjectedError
+            self.cur["rec"]["vf_lied"] = True
+            return Failure(RemoteException(Failure(InjectedError("injected failure after the write was applied"))))
         if meth == W and vs.name in self.lie:
             plan = self.lie[vs.name]
             plan["seen"] += 1
@@ -284,6 +292,7 @@ class Case(object):
 
     def clear_faults(self):
         self.lie.clear()
+        self.lie_pairs.clear()
         for vs in self.g.servers:
             vs.faults = []
             vs.zombie = False
@@ -441,9 +450,38 @@ class Case(object):
         if st != "ok":
             ck.observe("honest-mapupdate-failed")
             return
-        mode = rng.choice(["current-copy-fails", "current-copy-fails", "current-copy-fails+only-k", "no-fault"])
-        self.faultdesc["duplicate"] = dict(shnum=a, stale_on=svs.name, current_on=[vs.name for vs in cur], mode=mode)
-        if mode != "no-fault":
+        mode = rng.choice(["current-copy-fails", "current-copy-fails", "current-copy-fails+only-k", "no-fault",
+                           "k-writers-survive-on-k-1-share-numbers", "k-writers-survive-on-k-1-share-numbers"])
+        if mode.startswith("k-writers") and k < 2:
+            mode = "current-copy-fails"
+        op = "update"
+        if mode.startswith("k-writers"):
+            op = rng.choice(["overwrite", "update"])
+            if rng.random() < .6:
+                # one more honest version: both homes of the share number now hold the current version
+                mid = rng.randbytes(len(data))
+                st, r = self.wait(node.overwrite(MutableData(mid)))
+                if st != "ok":
+                    ck.observe("honest-overwrite-failed")
+                    return
+                st, best = self.wait(node.get_best_mutable_version())
+                if st != "ok":
+                    ck.observe("honest-mapupdate-failed")
+                    return
+        self.faultdesc["duplicate"] = dict(shnum=a, stale_on=svs.name, current_on=[vs.name for vs in cur], mode=mode, op=op)
+        if mode.startswith("k-writers"):
+            # acknowledgements survive for both homes of the duplicated number and for one home of k-2 other numbers: k
+            # writers are left, they cover k-1 share numbers
+            survive = set([(svs.name, a), (cur[0].name, a)])
+            others = [sh for sh in sorted(where, key=lambda x: rng.random()) if sh != a][:k - 2]
+            for sh in others:
+                survive.add((where[sh][0].name, sh))
+            for sh, vss in where.items():
+                for vs in vss:
+                    if (vs.name, sh) not in survive:
+                        self.lie_pairs.add((vs.name, sh))
+            ck.hit("duplicate-homes-with-k-surviving-writers")
+        elif mode != "no-fault":
             for vs in cur:
                 vs.add_fault("raise", method=W)
                 self.faultdesc[vs.name] = dict(action="raise")
@@ -464,10 +502,14 @@ class Case(object):
         off = min(off, len(mid) - 1)
         x = rng.randbytes(rng.choice([1, 7, 100]))
         new = mid[:off] + x + mid[off + len(x):]
-        ck.hit("in-place-update")
         n0 = len(g.calls)
-        st, res = self.wait(best.update(MutableData(x), off))
-        self.judge(n0, st, res, new, cap, "update", prev=mid)
+        if op == "overwrite":
+            new = rng.randbytes(rng.choice([100, 3000, len(mid)]))
+            st, res = self.wait(node.overwrite(MutableData(new)))
+        else:
+            ck.hit("in-place-update")
+            st, res = self.wait(best.update(MutableData(x), off))
+        self.judge(n0, st, res, new, cap, op, prev=mid)
 
     def homeless_collision(self, c, node, cap, si, new):
         """A share is lost, the writer maps the grid (that share number is now homeless), then a share with that number -
